@@ -326,5 +326,237 @@ theorem rows_spec (hW : 2 ≤ W) (a : List ℕ) (ha : a ≠ []) (hatop : TopNZ a
           have hd : decide (r.2 + dr * b + k ≠ 0) = true := decide_eq_true hK
           rw [hd]; simp
 
-#print axioms rows_spec
+
+/-- strip leading zero limbs of `a`, advancing the window; returns (skipped prefix, window, a') -/
+def stripFront : List ℕ → List ℕ → List ℕ × List ℕ × List ℕ
+  | win, 0 :: as =>
+      match win with
+      | [] => let r := stripFront [] as; (r.1, r.2.1, r.2.2)
+      | l :: ls => let r := stripFront ls as; (l :: r.1, r.2.1, r.2.2)
+  | win, as => ([], win, as)
+
+theorem stripFront_spec (win a : List ℕ) :
+    let r := stripFront win a
+    win = r.1 ++ r.2.1 ∧ (∃ k, val W a = W ^ k * val W r.2.2 ∧ (r.1.length = k ∨ (r.2.1 = [] ∧ r.1.length ≤ k)))
+    ∧ (r.2.2 = [] ∨ r.2.2.head? ≠ some 0) := by
+  induction a generalizing win with
+  | nil => simp [stripFront]
+  | cons x xs ih =>
+    by_cases hx : x = 0
+    · subst hx
+      cases win with
+      | nil =>
+        obtain ⟨i1, ⟨k, i2, i3⟩, i4⟩ := ih []
+        simp only [stripFront]
+        refine ⟨by simpa using i1, ⟨k + 1, by simp [i2, pow_succ]; ring, ?_⟩, i4⟩
+        right
+        have h1 : (stripFront [] xs).1 = [] ∧ (stripFront [] xs).2.1 = [] := by
+          have := i1; simp at this; exact ⟨this.1, this.2⟩
+        exact ⟨h1.2, by rw [h1.1]; simp⟩
+      | cons l ls =>
+        obtain ⟨i1, ⟨k, i2, i3⟩, i4⟩ := ih ls
+        simp only [stripFront]
+        refine ⟨by simp [← i1], ⟨k + 1, by simp [i2, pow_succ]; ring, ?_⟩, i4⟩
+        rcases i3 with h | ⟨h1, h2⟩
+        · left; simp [h]
+        · right; exact ⟨h1, by simp; omega⟩
+    · have : stripFront win (x :: xs) = ([], win, x :: xs) := by
+        cases x with
+        | zero => exact absurd rfl hx
+        | succ n => rfl
+      rw [this]
+      exact ⟨by simp, ⟨0, by simp, Or.inl rfl⟩, Or.inr (by simp; exact hx)⟩
+
+
+/-- strip trailing (most significant) zero limbs -/
+def stripBack : List ℕ → List ℕ
+  | [] => []
+  | x :: xs =>
+      match stripBack xs with
+      | [] => if x = 0 then [] else [x]
+      | y :: ys => x :: y :: ys
+
+theorem stripBack_spec (l : List ℕ) :
+    val W (stripBack l) = val W l ∧ (stripBack l = [] ∨ TopNZ (stripBack l)) := by
+  induction l with
+  | nil => simp [stripBack]
+  | cons x xs ih =>
+    obtain ⟨i1, i2⟩ := ih
+    simp only [stripBack]
+    match hm : stripBack xs with
+    | [] =>
+      rw [hm] at i1
+      simp only [val_nil] at i1
+      by_cases hx : x = 0
+      · simp [hx, ← i1]
+      · simp only [hx, if_false]
+        refine ⟨by simp [← i1], Or.inr ?_⟩
+        simp [TopNZ, hx]
+    | y :: ys =>
+      rw [hm] at i1 i2
+      refine ⟨by simp only [val_cons] at i1 ⊢; rw [i1], Or.inr ?_⟩
+      rcases i2 with h | h
+      · simp at h
+      · unfold TopNZ at h ⊢; rwa [List.getLast?_cons_cons]
+
+/-- the complete `addmul` -/
+def addmul (lhs a b : List ℕ) : List ℕ × Bool :=
+  let s1 := stripFront lhs a
+  let a' := stripBack s1.2.2
+  let s2 := stripFront s1.2.1 b
+  let b' := stripBack s2.2.2
+  if a' = [] ∨ b' = [] then (lhs, false)
+  else if s2.2.1 = [] then (lhs, true)
+  else
+    let r := if b'.length > a'.length then rows W s2.2.1 b' a' false else rows W s2.2.1 a' b' false
+    (s1.1 ++ s2.1 ++ r.1, r.2)
+
+theorem tot_aux (p P vwin vr Q k xy : ℕ) (h : P * (vr + Q * k) = P * (vwin + xy)) :
+    p + P * vwin + P * xy = (p + P * vr) + P * Q * k := by
+  have h' : P * vr + P * Q * k = P * vwin + P * xy := by
+    have := h; rw [Nat.mul_add, Nat.mul_add, ← Nat.mul_assoc] at this; exact this
+  omega
+
+theorem fit_aux (p P vr Q : ℕ) (hp : p < P) (hr : vr + 1 ≤ Q) : p + P * vr < P * Q := by
+  have h1 := Nat.mul_le_mul_left P hr
+  rw [Nat.mul_add, Nat.mul_one] at h1
+  omega
+
+set_option maxHeartbeats 4000000 in
+/-- `addmul`: `lhs += a*b` modulo `W^|lhs|`, flag exactly when the true sum does not fit. -/
+theorem addmul_spec (hW : 2 ≤ W) (lhs a b : List ℕ) (hl : AllLt W lhs) :
+    val W (addmul W lhs a b).1 = (val W lhs + val W a * val W b) % W ^ lhs.length
+    ∧ (addmul W lhs a b).1.length = lhs.length
+    ∧ ((addmul W lhs a b).2 = true ↔ W ^ lhs.length ≤ val W lhs + val W a * val W b) := by
+  have hW0 : 0 < W := by omega
+  have hlhs := val_lt_pow W lhs hl
+  unfold addmul
+  simp only []
+  obtain ⟨p1, ⟨k1, q1, r1⟩, _⟩ := stripFront_spec W lhs a
+  obtain ⟨p2, ⟨k2, q2, r2⟩, _⟩ := stripFront_spec W (stripFront lhs a).2.1 b
+  obtain ⟨va, ta⟩ := stripBack_spec W (stripFront lhs a).2.2
+  obtain ⟨vb, tb⟩ := stripBack_spec W (stripFront (stripFront lhs a).2.1 b).2.2
+  set s1 := stripFront lhs a
+  set s2 := stripFront s1.2.1 b
+  set a' := stripBack s1.2.2
+  set b' := stripBack s2.2.2
+  have hva : val W a = W ^ k1 * val W a' := by rw [q1, va]
+  have hvb : val W b = W ^ k2 * val W b' := by rw [q2, vb]
+  by_cases hz : a' = [] ∨ b' = []
+  · -- product is zero
+    simp only [hz, if_true]
+    have hprod : val W a * val W b = 0 := by
+      rcases hz with h | h
+      · rw [hva, h]; simp
+      · rw [hvb, h]; simp
+    rw [hprod, Nat.add_zero, Nat.mod_eq_of_lt hlhs]
+    refine ⟨rfl, trivial, ?_⟩
+    constructor
+    · intro h; simp at h
+    · intro h; omega
+  · simp only [hz, if_false]
+    push Not at hz
+    obtain ⟨hane, hbne⟩ := hz
+    have hta : TopNZ a' := by rcases ta with h | h; exact absurd h hane; exact h
+    have htb : TopNZ b' := by rcases tb with h | h; exact absurd h hbne; exact h
+    have hav := topnz_val W hW0 a' hane hta
+    have hbv := topnz_val W hW0 b' hbne htb
+    have hap : 1 ≤ val W a' := le_trans (Nat.one_le_pow _ _ hW0) hav
+    have hbp : 1 ≤ val W b' := le_trans (Nat.one_le_pow _ _ hW0) hbv
+    -- lhs = s1.1 ++ s2.1 ++ window
+    have hsplit : lhs = s1.1 ++ s2.1 ++ s2.2.1 := by rw [List.append_assoc, ← p2, ← p1]
+    have hlen : lhs.length = s1.1.length + s2.1.length + s2.2.1.length := by
+      conv_lhs => rw [hsplit]
+      simp [List.length_append]; omega
+    have hprod : val W a * val W b = W ^ (k1 + k2) * (val W a' * val W b') := by
+      rw [hva, hvb, pow_add]; ring
+    by_cases hwe : s2.2.1 = []
+    · -- window exhausted: product ≥ W^(k1+k2) ≥ W^|lhs|
+      simp only [hwe, if_true]
+      have hk : lhs.length ≤ k1 + k2 := by
+        rw [hwe] at hlen
+        simp at hlen
+        have h1 : s1.1.length ≤ k1 := by rcases r1 with h | ⟨_, h⟩ <;> omega
+        have h2 : s2.1.length ≤ k2 := by rcases r2 with h | ⟨_, h⟩ <;> omega
+        omega
+      have hbig : W ^ lhs.length ≤ val W a * val W b := by
+        rw [hprod]
+        have : W ^ lhs.length ≤ W ^ (k1 + k2) := Nat.pow_le_pow_right hW0 hk
+        have : 1 ≤ val W a' * val W b' := Nat.mul_pos hap hbp
+        nlinarith
+      have hmod : (val W lhs + val W a * val W b) % W ^ lhs.length = val W lhs := by
+        rw [hprod]
+        have : W ^ (k1 + k2) = W ^ lhs.length * W ^ (k1 + k2 - lhs.length) := by
+          rw [← pow_add]; congr 1; omega
+        rw [this, Nat.mul_assoc, Nat.add_mul_mod_self_left, Nat.mod_eq_of_lt hlhs]
+      rw [hmod]
+      refine ⟨rfl, trivial, ?_⟩
+      constructor
+      · intro _; omega
+      · intro _; trivial
+    · simp only [hwe, if_false]
+      -- main case: rows on the window
+      have hwin : AllLt W s2.2.1 := by
+        intro y hy; apply hl y; rw [hsplit]; simp [hy]
+      have hk1 : s1.1.length = k1 := by
+        rcases r1 with h | ⟨h, _⟩
+        · exact h
+        · exfalso
+          -- window of s1 empty ⇒ s2 window empty
+          have : s2.2.1 = [] := by
+            have := p2; rw [h] at this
+            simp at this; exact this.2
+          exact hwe this
+      have hk2 : s2.1.length = k2 := by
+        rcases r2 with h | ⟨h, _⟩
+        · exact h
+        · exact absurd h hwe
+      set pre := s1.1 ++ s2.1 with hpre
+      have hprelen : pre.length = k1 + k2 := by rw [hpre, List.length_append, hk1, hk2]
+      have hvl : val W lhs = val W pre + W ^ (k1 + k2) * val W s2.2.1 := by
+        conv_lhs => rw [hsplit]
+        rw [val_append, hprelen]
+      have hprelt : val W pre < W ^ (k1 + k2) := by
+        have := val_lt_pow W pre (fun y hy => hl y (by rw [hsplit]; simp [hpre] at hy ⊢; tauto))
+        rwa [hprelen] at this
+      have hLw : lhs.length = (k1 + k2) + s2.2.1.length := by rw [hlen, hk1, hk2]
+      have hWL : W ^ lhs.length = W ^ (k1 + k2) * W ^ s2.2.1.length := by rw [hLw, pow_add]
+      -- apply rows_spec in the right orientation
+      have main : ∀ (x y : List ℕ), x ≠ [] → TopNZ x → y ≠ [] → TopNZ y → val W x * val W y = val W a' * val W b' →
+          val W (pre ++ (rows W s2.2.1 x y false).1) = (val W lhs + val W a * val W b) % W ^ lhs.length
+          ∧ (pre ++ (rows W s2.2.1 x y false).1).length = lhs.length
+          ∧ ((rows W s2.2.1 x y false).2 = true ↔ W ^ lhs.length ≤ val W lhs + val W a * val W b) := by
+        intro x y hx htx hy hty hxy
+        obtain ⟨k, e1, e2, e3, e4⟩ := rows_spec W hW x hx htx y s2.2.1 false hwin (Or.inr hty)
+        set rr := rows W s2.2.1 x y false
+        have hstored := val_lt_pow W rr.1 e3
+        rw [e2] at hstored
+        have htot : val W lhs + val W a * val W b
+            = (val W pre + W ^ (k1 + k2) * val W rr.1) + W ^ lhs.length * k := by
+          rw [hvl, hprod, ← hxy, hWL]
+          have h0 : W ^ (k1 + k2) * (val W rr.1 + W ^ s2.2.1.length * k)
+              = W ^ (k1 + k2) * (val W s2.2.1 + val W x * val W y) := by rw [e1]
+          exact tot_aux _ _ _ _ _ _ _ h0
+        have hfit : val W pre + W ^ (k1 + k2) * val W rr.1 < W ^ lhs.length := by
+          rw [hWL]
+          exact fit_aux _ _ _ _ hprelt hstored
+        refine ⟨?_, by rw [List.length_append, e2, hprelen, hLw], ?_⟩
+        · rw [val_append, hprelen, htot, Nat.add_mul_mod_self_left, Nat.mod_eq_of_lt hfit]
+        · rw [e4, htot]
+          simp only [Bool.false_or, decide_eq_true_eq]
+          constructor
+          · intro hk
+            have : 1 ≤ k := Nat.one_le_iff_ne_zero.mpr hk
+            nlinarith [Nat.zero_le (val W pre + W ^ (k1 + k2) * val W rr.1)]
+          · intro hle hk0
+            rw [hk0] at hle; omega
+      by_cases hsw : b'.length > a'.length
+      · simp only [hsw, if_true]
+        have := main b' a' hbne htb hane hta (Nat.mul_comm _ _)
+        simpa [hpre] using this
+      · simp only [hsw, if_false]
+        have := main a' b' hane hta hbne htb rfl
+        simpa [hpre] using this
+
+#print axioms addmul_spec
 end Am
